@@ -41,6 +41,7 @@ func init() {
 				}
 				add("hashmap-s1-mmap-k3", merge(base, p("k", 3, "ops", opPut|opDelete, "index", 3, "shards", 1, "io", 1)))
 				add("hashmap-s1-batch-k2", merge(base, p("k", 2, "ops", opPut|opDelete|opBatch, "bmax", 2, "index", 3, "shards", 1, "vlens", 2)))
+				add("hashmap-s1-batch-long-and-short-values-k1", merge(base, p("k", 1, "ops", opBatch, "bmax", 3, "index", 3, "shards", 1, "vlens", 3, "vbig", 9, "dfs_lo", 0, "dfs_hi", 0)))
 				add("btree-s1-merge-k3", merge(base, p("k", 3, "ops", opPut|opDelete|opMerge, "index", 1, "shards", 1)))
 				add("skiplist-s1-sync-always-k3", merge(base, p("k", 3, "ops", opPut|opDelete, "index", 2, "shards", 1, "sync", 1, "vlens", 2)))
 				// concrete key families around representation boundaries (see kit.go vConcreteKeyFamilies)
@@ -159,6 +160,7 @@ func init() {
 				add("std-to-mmap-k2-k1", merge(base, p("k", 2, "k2", 1, "ops", opPut|opDelete, "index", 3, "shards", 1, "io", 0, "r_io", 2)))
 				add("merge-k3", merge(base, p("k", 3, "k2", 1, "ops", opPut|opDelete|opMerge, "vlens", 2, "index", 1, "shards", 1)))
 				add("two-spellings-merge-k2-k2", merge(base, p("spelling", 1, "k", 2, "k2", 2, "ops", opPut|opDelete|opMerge, "vlens", 1, "index", 3, "shards", 1)))
+				add("directory-name-with-pattern-characters-k2-k1", merge(base, p("spelling", 2, "k", 2, "k2", 1, "ops", opPut|opDelete|opMerge, "vlens", 1, "index", 3, "shards", 1, "dfs_lo", 40, "dfs_hi", 40)))
 				// 12 data files (ids 0..11) before the history: file-name parsing, id ordering, two-digit ids
 				add("twelve-files-k2-k1", merge(base, p("fill", 12, "k", 2, "k2", 1, "ops", opPut|opDelete, "vlens", 1, "index", 3, "shards", 1, "dfs_lo", 20, "dfs_hi", 20)))
 				add("cfgsweep-k2", merge(base, p("cfgsweep", 2, "k", 2, "k2", 0, "ops", opPut|opDelete|opBatch, "bmax", 1, "vlens", 1, "r_index", 2, "r_shards", 2, "dfs_lo", 40, "dfs_hi", 40)))
@@ -865,6 +867,7 @@ func init() {
 				add("zset-btree-k3", p("k", 3, "keys", 1, "cmds", cZAdd|cZScore|cDel, "index", 1, "nscores", 2))
 				add("zset-close-scores-k3", p("k", 3, "keys", 1, "cmds", cZAdd|cZScore, "scoreset", 1, "nscores", 2))
 				add("string-negative-ttl-k3", p("k", 3, "keys", 1, "cmds", cSet|cGet|cType|cHSet|cLPush|cRestart, "negttl", 1))
+				add("hash-arguments-from-one-buffer-k3", p("k", 3, "keys", 1, "cmds", cHSet|cHGet|cHDel|cRestart, "onebuf", 1))
 				// a 6-byte member with arbitrary bytes next to a 1-byte one (known finding: member key vs score key)
 				add("zset-arbitrary-6-byte-member-k2", p("k", 2, "keys", 1, "cmds", cZAdd|cZScore, "longmember", 1, "nscores", 3))
 				add("set-type-k3", p("k", 3, "keys", 1, "cmds", cSAdd|cSRem|cSIsMember|cDel|cType|cSet))
